@@ -1,7 +1,6 @@
 package chk
 
 import (
-	"go/ast"
 	"go/types"
 	"strings"
 
@@ -19,51 +18,49 @@ func checkC12(c *Ctx, r *Report) {
 	r.Explanation = "Narrow clauses: (S-MEMBER) Size, Encode and EncodeSW of File and MediaSegment visit the same members in the same order under the same guards (styp, every sidx, fragments, mfra); " +
 		"(T-ORDER) when deciding whether a moof starts a new segment, the start-on-moof option is consulted only after the delimiters present in the file (styp handled by the caller, top-level sidx, tfra); " +
 		"(DEP) each sidx reference's size depends on MediaSegment.Size() of that segment and its duration on the summed Sample.Dur of the reference track, the earliest presentation time on tfdt; " +
-		"(E9) Sidx/Sidxs of File and MediaSegment are updated together. Does not decide the partition for a given delimiter mix or anchor-point arithmetic."
+		"(E9) Sidx/Sidxs of File and MediaSegment are updated together; (O-PRE) durations are summed after tfhd/trex defaults are applied, and the add-sidx tool removes boxes before the index sizes are computed. Does not decide the partition for a given delimiter mix or anchor-point arithmetic."
 	wireAssumptions(r)
 	m := compositeVerdicts(c)
 	for _, t := range []string{"File", "MediaSegment", "Fragment"} {
 		reportMember(r, "S-MEMBER-size", t, m[t], m[t].se, "Size() and EncodeSW of the composite visit different members")
 		reportMember(r, "S-MEMBER-enc", t, m[t], m[t].ee, "Encode and EncodeSW of the composite disagree")
 	}
-	// T-ORDER
-	if fn := c.LookupFunc("mp4", "File.startSegmentIfNeeded"); fn == nil {
-		r.Undecided("T-ORDER", "anchor:mp4.File.startSegmentIfNeeded", "", "function not found")
-	} else {
-		decl, _ := c.Decl(fn)
-		var sw *ast.SwitchStmt
-		ast.Inspect(decl, func(n ast.Node) bool {
-			if s, ok := n.(*ast.SwitchStmt); ok && s.Tag == nil && sw == nil {
-				sw = s
+	// T-ORDER: the branch that consults the start-on-moof option is reached only through the "absent" arms of
+	// the tests on the index delimiters (top-level sidx, tfra)
+	if f := c.ssaFunc(r, "T-ORDER", "mp4", "File.startSegmentIfNeeded"); f != nil {
+		key := "mp4.File.startSegmentIfNeeded:delimiter-order"
+		var flagBlocks []*ssa.BasicBlock
+		for _, b := range f.Blocks {
+			if len(b.Instrs) == 0 {
+				continue
 			}
-			return true
-		})
-		if sw == nil {
-			r.Undecided("T-ORDER", "mp4.File.startSegmentIfNeeded:switch", c.Pos(fn.Pos()), "tagless switch over the delimiters not found")
-		} else {
-			idx := map[string]int{}
-			for i, cc := range sw.Body.List {
-				cl := cc.(*ast.CaseClause)
-				for _, e := range cl.List {
-					s := types.ExprString(e)
-					switch {
-					case strings.Contains(s, "DecStartOnMoof"):
-						idx["startOnMoof"] = i + 1
-					case strings.Contains(s, "Sidx"):
-						idx["sidx"] = i + 1
-					case strings.Contains(s, "tfra"):
-						idx["tfra"] = i + 1
-					}
+			if ifi, ok := b.Instrs[len(b.Instrs)-1].(*ssa.If); ok {
+				if sliceHas(backSlice(c, ifi.Cond, 0), "field", "File.fileDecFlags") {
+					flagBlocks = append(flagBlocks, b)
 				}
 			}
-			key := "mp4.File.startSegmentIfNeeded:delimiter-order"
-			switch {
-			case idx["startOnMoof"] == 0 || idx["sidx"] == 0 || idx["tfra"] == 0:
-				r.Undecided("T-ORDER", key, c.Pos(sw.Pos()), "expected cases on Sidx, tfra and DecStartOnMoof")
-			case idx["startOnMoof"] < idx["sidx"] || idx["startOnMoof"] < idx["tfra"]:
-				r.Bad("T-ORDER", key, c.Pos(sw.Pos()), "the start-on-moof option is tested before the sidx / tfra delimiters: with the option set, segments described by an index are split at every moof")
-			default:
-				r.OK("T-ORDER", key, c.Pos(sw.Pos()), "sidx and tfra delimiters take precedence over the start-on-moof option")
+		}
+		if len(flagBlocks) == 0 {
+			r.Undecided("T-ORDER", key, c.Pos(f.Pos()), "no branch on the decode flags (DecStartOnMoof) found")
+		}
+		for _, fb := range flagBlocks {
+			var sidxSeen, tfraSeen bool
+			conds := controlConds(fb)
+			// the flag test itself may sit directly in the arm block
+			for _, cond := range conds {
+				sl := backSlice(c, cond, 0)
+				if sliceHas(sl, "field", "File.Sidx") || sliceHas(sl, "field", "File.Sidxs") {
+					sidxSeen = true
+				}
+				if sliceHas(sl, "field", "File.tfra") {
+					tfraSeen = true
+				}
+			}
+			pos := c.Pos(fb.Instrs[len(fb.Instrs)-1].Pos())
+			if sidxSeen && tfraSeen {
+				r.OK("T-ORDER", key, pos, "the start-on-moof option is consulted only after the sidx and tfra delimiters were found absent")
+			} else {
+				r.Bad("T-ORDER", key, pos, "the start-on-moof option is tested before the sidx / tfra delimiters: with the option set, segments described by an index are split at every moof")
 			}
 		}
 	}
@@ -91,6 +88,9 @@ func checkC12(c *Ctx, r *Report) {
 		}
 	}
 	ruleCoherence(c, r, map[string]bool{"File": true, "MediaSegment": true})
+	ruleAddSidxOrder(c, r)
+	ruleDefaultsBeforeDur(c, r)
+	ruleTrexFallback(c, r)
 }
 
 // C15 — parameter sets and slice headers (id-domain typing clause only).
